@@ -10,7 +10,7 @@ CLAIMS = {
  "C03": ("pop/addArgs functional contracts (exact conservation of the tokens handed over, pointwise), suffix facts of parseOption/parseShort/parseLong, fillParseState, ParseArgs returns the retargs it also hands to the command",
          "whole-argv conservation across the argument loop is composed by hand from the per-call contracts (not a single mechanised invariant)"),
  "C04": ("annotation-free safety obligations (index, slice, nil, type assertion, division, nil map/func) in every function under contract, typed-error postconditions, printError called exactly once iff an error is returned, stdout only for ErrHelp",
-         "functions not yet under contract (Set, convert, clearDefault, checkRequired, estimateCommand, help generation) enter as assumed contracts; termination of the argument loop assumes the unknown-option handler does not grow the list"),
+         "a few functions (Option.call, help text generation called from showBuiltinHelp) enter as assumed contracts; termination of the argument loop assumes the unknown-option handler does not grow the list"),
  "C07": ("parseLong/parseShort unknown-name posts (ErrUnknownFlag, no Set, nothing popped), lookup tables proved exact (an entry is filed under exactly the name it answers to and belongs to the command chain), ParseArgs: a non-ignorable option error is the returned error and blocks execution",
          "message text (fmt.Sprintf) is uninterpreted; the single handler call with the unconsumed arguments is not yet a postcondition"),
  "C08": ("fillLookup/makeLookup (options filed under exact namespaced names, commands only subcommands of the current command answering to the word), parseNonOption (selection, Active, refill of positionals), visible/sorted commands",
@@ -29,12 +29,14 @@ CLAIMS = {
          "first-of-equal-rank, groupByName/Find (section resolution) and the relational lemma ini-entry == flag are not mechanised"),
  "C14": ("readFullLine/readIni/IniParser.parse: no index or nil panic for any byte sequence, termination for finite input, every *IniError carries the number of lines read so far and the file name, sections are registered in file order, ErrUnknownGroup only without IgnoreUnknown",
          "bufio.Reader.ReadLine is assumed (finite input); that noise lines do not change other entries is read off the loop structure, not a separate lemma"),
+ "C16": ("help and man page rows: writeManPageOptions and WriteHelp write exactly one row per option that can be shown (non-hidden, with a name) of every group that is not hidden (and, below the top level, not the built-in help group) along the iterated groups / active chain - counted with ghost counters against a recursive specification - and no row for anything else; hidden options write nothing (writeHelpOption); a masked default is rendered as its mask or not at all, never as its value (help row text and man row); man sections and the help command list only come from the sorted visible (non-hidden) subcommands",
+         "the byte-level layout of a row (names, value name, choices) is not specified beyond the description/default/env text; fmt and bufio are assumed; termination of the mutual recursion of the man-page walk is not proved; ordinals of 'at call' assertions are tied to the current source"),
  "C17": ("wrapText: safety of every slice expression, termination, break positions 1 <= pos < width, and content preservation (the text without white space and hyphens is unchanged)",
          "alignment (getAlignmentInfo / writeHelpOption / argument rows: the padding counts are non-negative) is not yet under contract - the byte/character defect there was repaired by a fix: commit but is not yet guarded by an obligation; nwd is a trusted ghost function"),
  "C19": ("multiTag.scan against a recursive grammar of the tag text (keys, escapes inside quoted values, repeated keys in order, strconv.Unquote of each literal), safety for every string, ErrTag on every error exit",
          "Get/GetMany/cached and the attribute mapping in scanStruct (which tag feeds which Option field), duplicate detection and short-name length are not yet under contract"),
- "C20": ("levenshtein proved equal to the Wagner-Fischer recurrence over rune sequences (table invariants), closestChoice returns the first minimum, visible/sorted command lists",
-         "estimateCommand (threshold, message) is an assumed contract; symmetry and d=0 iff equal are properties of the recurrence not proved as lemmas"),
+ "C20": ("levenshtein proved equal to the Wagner-Fischer recurrence over rune sequences (table invariants), closestChoice returns the first minimum, visible/sorted command lists, estimateCommand: candidates are exactly the sorted visible subcommands, suggestion iff 2*distance < length of the suggested name, otherwise the enumeration of all of them (message text proved)",
+         "the float32 threshold in estimateCommand is modelled over the reals; symmetry and d=0 iff equal are properties of the recurrence not proved as lemmas"),
 }
 
 props=[json.loads(l) for l in open('/verif/properties.jsonl')]
